@@ -264,6 +264,17 @@ func checkC17(c *Ctx, r *Report) {
 	r.rule("C17.T2", "per Store method: sentinel errors returnable by both implementations are equal", len(methods))
 	r.rule("C17.T3", "clone exhaustiveness over exported protobuf fields", 4)
 	r.rule("C17.T4", "FetchConsumerOffset not-found value agrees between the stores", 1)
+	r.rule("C17.T5", "key and match strings of the metadata package delimit the topic name (C22.R2 re-evaluated): an unterminated prefix or match string makes the etcd store touch keys of sibling topics that the map-keyed in-memory store leaves alone", 5)
+	{
+		sub := newReport("C22")
+		checkC22(c, sub)
+		for _, x := range sub.Results {
+			if x.Status == Info || x.Rule != "C22.R2" || !strings.Contains(x.Pos, "pkg/metadata/") {
+				continue
+			}
+			r.add("C17.T5", x.Construct, x.Pos, x.Status, x.Detail)
+		}
+	}
 	if len(methods) == 0 {
 		r.unresolved("C17.T1", "metadata.Store interface", "not found")
 		return
@@ -386,7 +397,7 @@ func checkC16(c *Ctx, r *Report) {
 	}
 	r.rule("C16.R1", "a never-committed partition reads as -1: OffsetFetch maps 'no commit' to -1, or both FetchConsumerOffset implementations return -1 when nothing is stored", 1)
 	r.rule("C16.R2", "consumer offset key formats are injective: the topic interpolated next to a free-form group id is validated on every commit path, or the components are escaped; no normalising builder (path.Join/Clean, case folding, trimming) is applied to a free-form component", 3)
-	r.rule("C16.R3", "identity of (group, topic, partition, offset, metadata) between request, store call and response", 4)
+	r.rule("C16.R3", "identity of (group, topic, partition, offset, metadata) between request, store call and response; both stores overwrite offset and metadata together", 6)
 
 	// ---- R1
 	of := needFn(m, r, "C16.R1", pkgBrokerLib, "(*GroupCoordinator).OffsetFetch")
@@ -568,6 +579,67 @@ func checkC16(c *Ctx, r *Report) {
 					}
 				}
 			}
+		}
+		// the metadata of the same commit is stored too, and both writes are unconditional: a commit
+		// that keeps the previous metadata reads back something that was never committed together
+		var writes []ssa.Instruction
+		okMeta := false
+		for _, b := range fn.Blocks {
+			for _, in := range b.Instrs {
+				switch x := in.(type) {
+				case *ssa.MapUpdate:
+					if _, f, _, ok := fieldOf(x.Map); ok && (f == "consumerOffsets" || f == "consumerMeta") {
+						writes = append(writes, in)
+						if f == "consumerMeta" && isParamNamed(x.Value, "metadata") {
+							okMeta = true
+						}
+					}
+				case *ssa.Store:
+					if fa, ok := x.Addr.(*ssa.FieldAddr); ok {
+						if t, f, _, ok := fieldAddrInfo(fa); ok && strings.HasSuffix(t, "consumerOffsetRecord") && (f == "Offset" || f == "Metadata") {
+							writes = append(writes, in)
+							if f == "Metadata" && isParamNamed(x.Val, "metadata") {
+								okMeta = true
+							}
+						}
+					}
+				}
+			}
+		}
+		skipped := ""
+		for _, w := range writes {
+			w := w
+			if found, _, path := search(SearchSpec{Start: Loc{fn.Blocks[0], 0},
+				Target: func(t ssa.Instruction) bool {
+					ret, ok := t.(*ssa.Return)
+					if !ok {
+						return false
+					}
+					for _, o := range origins(ret.Results[len(ret.Results)-1]) {
+						if isNilConst(o) {
+							return true
+						}
+						if ex, ok := strip(o).(*ssa.Extract); ok {
+							// the error of the final Put: success is one of its outcomes
+							if c, ok := ex.Tuple.(*ssa.Call); ok && strings.Contains(calleeName(&c.Call), ".Put") {
+								return true
+							}
+						}
+					}
+					return false
+				},
+				Blocker: func(t ssa.Instruction) bool { return t == w }}); found {
+				skipped = "a successful commit can skip the write at " + m.Pos(w.Pos()) + ": " + renderPath(m, path)
+			}
+		}
+		keyM := impl + " overwrites offset and metadata together on every successful commit"
+		switch {
+		case !okMeta:
+			r.viol("C16.R3", keyM, m.Pos(fn.Pos()), "the metadata argument is not stored")
+		case skipped != "":
+			r.viol("C16.R3", keyM, m.Pos(fn.Pos()), skipped+" — the previous commit's value survives and is read back with the new offset")
+		default:
+			r.ok("C16.R3", keyM, m.Pos(fn.Pos()), fmt.Sprintf("%d unconditional writes", len(writes)))
 		}
 		key := impl + " stores the committed offset under the (group, topic, partition) key"
 		if okKey && okVal {
